@@ -277,4 +277,17 @@ theorem decodeScan_stalled (k : Nat) (buf : Bytes) (rest : List Bytes) (hm : sca
     · rename_i hgt
       exact ih (e + 1) (by omega) (by omega)
 
+/-- A sequence of reads that all return at least one byte has no run of zero-length reads at all. -/
+theorem stallFree_of_nonempty (cs : List Bytes) (h : ∀ c ∈ cs, c ≠ []) : ∀ e, stallFree e cs = true := by
+  induction cs with
+  | nil => intro e; simp [stallFree]
+  | cons c cs ih =>
+    intro e
+    have hc : c.isEmpty = false := by
+      have := h c (by simp)
+      cases c <;> simp_all
+    simp only [stallFree, hc, Bool.false_eq_true, if_false]
+    exact ih (fun x hx => h x (by simp [hx])) 0
+
+
 end Whawty.Sasl
